@@ -294,6 +294,10 @@ for _v in (5, 9, 10):
     reg(["C12", "C06"], H("w::w_allowed_narrowed_%d" % _v, unwind=2, loops=_WL, timeout=1500, mem_gb=16, tier="quick" if _v == 9 else "thorough",
         desc="allowed_versions narrowed between two calls (version %d header-only packet): accepted while allowed, silently dropped once v is removed from the set" % _v,
         bounds={"calls": 2, "allowed": "default set, then v removed and a symbolic other number added"}, assumptions=[_W]))
+for _v in (5, 9, 10):
+    reg(["C12", "C06"], H("w::w_allowed_four_%d" % _v, unwind=6, loops=_WL, timeout=1500, mem_gb=16, tier="quick" if _v == 10 else "thorough",
+        desc="four-member symbolic allow-list (the default list has four members too): a header-only version %d packet is reported iff %d is one of the four numbers" % (_v, _v),
+        bounds={"allowed": "4 symbolic u16 (duplicates allowed)"}, assumptions=[_W]))
 reg(["C07", "C06"], H("p::p_v9_unknown_then_template", unwind=5, timeout=1800, mem_gb=24,
     desc="V9::parse on [data flowset for an undefined id, then the template flowset defining a (symbolic) id]: packet is an error and nothing is cached (flowset order matters: a later template does not rescue earlier data)",
     bounds={"shape": "count 2: data(id 300, 8 bytes) + template flowset with one 1-field record (written)", "symbolic": "template id, field, data bytes"}, assumptions=[_S9]))
@@ -351,6 +355,7 @@ _ACCT = "the Rust global allocator is Kani's model (kani_lib.c: malloc per reque
 for _nm, _d, _b in (
     ("c15_v5_count", "V5Parser::parse, header.count symbolic (all 65536 values) over a buffer holding no complete record", {"bytes": 27, "count": "every 16-bit value"}),
     ("c15_v7_count", "V7Parser::parse, header.count symbolic over a buffer holding no complete record", {"bytes": 27, "count": "every 16-bit value"}),
+    ("c15_v9_count_32_bare", "V9Parser::parse, header.count 32 (written) and nothing behind the header: accepted with no flowsets, nothing allocated per announced flowset", {"bytes": 18}),
     ("c15_v9_template_field_count_max", "v9::FlowSet::parse, template record announcing 65535 fields over an 8-byte body", {"bytes": 12}),
     ("c15_v9_template_field_count_4097", "v9::FlowSet::parse, template record announcing 4097 fields over an 8-byte body", {"bytes": 12}),
     ("c15_v9_options_template_lengths_max", "v9::FlowSet::parse, options template announcing scope/option lengths 65535/65535 over a 10-byte body", {"bytes": 14}),
@@ -366,7 +371,8 @@ for _nm, _d, _b in (
     ("c15_kernel_vec", "FieldValue::from_field_type(Vec): any declared length over <= 5 available bytes", {"available": "0..=5", "declared": "all 65536"}),
     ("c15_kernel_string", "FieldValue::from_field_type(String): any declared length over <= 5 available bytes", {"available": "0..=5", "declared": "all 65536"}),
 ):
-    reg(["C15"], H("c15::" + _nm, tier="thorough" if _nm == "c15_kernel_string" else "quick", unwind=8 if "kernel" in _nm else 3, loops=[(r"many0::<&\[u8\], u8", 12)], timeout=600, mem_gb=12, acct=True,
+    reg(["C15"], H("c15::" + _nm, tier="thorough" if _nm == "c15_kernel_string" else "quick", unwind=8 if "kernel" in _nm else 3,
+        loops=[(r"many0::<&\[u8\], u8", 12)] + ([(r"try_fold", 34)] if "bare" in _nm else []), timeout=600, mem_gb=12, acct=True,
         desc=_d + ": largest single heap request <= 64 KiB (nom's pre-allocation cap) and total requested <= 64 KiB + 8 x bytes present + 512; every loop exits within the unwinding bound (no work per announced-but-absent element)",
         bounds=dict(_b), assumptions=[_ACCT]))
 
@@ -413,10 +419,15 @@ QUICK_EXCLUDE = {"C06": [r"^w::w_shape_(10_7_stray|7_5cut)$", r"^s10::s_ipfix_te
                          r"^s10::s_ipfix_template_(2p_c2|1p_c1pad)$", r"^s10::s_ipfix_options_template_(1_1_c2|2_1_c2)$"],
                  "C05": [r"^s10::s_ipfix_template_e_p$", r"^s10::s_ipfix_options_template_2_1$",
                          r"^s10::s_ipfix_template_(2p_c2|1p_c1pad)$", r"^s10::s_ipfix_options_template_(1_1_c2|2_1_c2)$"],
-                 "C10": [r"^s10::s_ipfix_template_2p_c2$"]}
+                 "C10": [r"^s10::s_ipfix_template_2p_c2$"],
+                 "C02": [r"^w::w_shape_10_7_stray$", r"^p::p_v9_unknown_second$"],
+                 "C11": [r"^w::w_shape_9_unknown$", r"^p::p_v9_unknown_second$"],
+                 "C12": [r"^w::w_shape_7_5cut$"],
+                 "C14": [r"^w::w_shape_5_9$", r"^p::p_v9_unknown_second$"]}
 C01_QUICK = {"k::k_unsigned", "k::k_vec", "d9::d_v9_zero_size_template_1", "d9::d_v9_three_records", "s9::s_v9_template_1f_trunc",
              "s9::s_v9_data_dispatch", "s10::s_ipfix_data_dispatch", "w::w_real_9cut", "w::wr_ipfix_entry_22", "w::wr_v9_entry_c1_s3",
-             "fixed::v5_reexport_1", "s9::s_v9_truncated_d_max", "w::w_shape_7_5cut"}
+             "fixed::v5_reexport_1", "s9::s_v9_truncated_d_max", "w::w_shape_7_5cut",
+             "k::k_signed", "k::k_proto", "k::k_ip4", "fixed::v5_layout", "s9::s_v9_template_2f_c2"}
 
 import re as _re
 
